@@ -156,7 +156,7 @@ func (k Keeper) Deposit(ctx sdk.Context, Amount sdk.Coin, AppID uint64, addr str
 
 	err = k.SetNetFeeCollectedData(ctx, AppID, asset.Id, Amount.Amount)
 	if err != nil {
-		return nil
+		return err
 	}
 
 	err = k.Refund(ctx)
